@@ -1,0 +1,93 @@
+//go:build verif
+
+// Package verif holds the specification vocabulary used by the contract
+// files (zz_contracts_verif.go) that accompany frp packages under the build
+// tag "verif".  The functions have trivial bodies: the verification-condition
+// generator (/verif/govc) gives them their meaning.  Nothing in a normal
+// build (tag off) can reference this package.
+package verif
+
+// Requires states a precondition: assumed when the function under contract
+// is verified, proved at every call site that uses the contract.
+func Requires(cond bool, name string) {}
+
+// Ensures states a postcondition: proved when the function under contract is
+// verified (on every path, for all inputs), assumed at call sites.
+func Ensures(cond bool, name string) {}
+
+// Assert is a proof obligation inside a lemma / harness function.
+func Assert(cond bool, name string) {}
+
+// Assume adds an unchecked assumption; every use is listed in the evidence.
+func Assume(cond bool, why string) {}
+
+// Snap returns a ghost copy of a map's current contents (pre-state snapshot).
+func Snap[T any](x T) T { return x }
+
+// Held reports whether the write lock is held on this path.
+func Held(mu any) bool { return false }
+
+// HeldR reports whether the lock is held (read or write).
+func HeldR(mu any) bool { return false }
+
+// AssumeHeld declares that the caller holds the lock (helper contracts).
+func AssumeHeld(mu any) {}
+
+// Closed reports the ghost "closed" flag of a channel.
+func Closed[T any](ch chan T) bool { return false }
+
+// ChanCap is the capacity the channel was made with.
+func ChanCap[T any](ch chan T) int { return 0 }
+
+// Any is an arbitrary value of type T.
+func Any[T any]() T { var z T; return z }
+
+// Sent reports that a send of v on ch happened on this path.
+func Sent[T any](ch chan T, v T) bool { return false }
+
+// Called reports that a call whose name contains s happened on this path.
+func Called(s string) bool { return false }
+
+// CallCount is the number of calls on this path whose name contains s.
+func CallCount(s string) int { return 0 }
+
+// CalledWith reports that some call whose name contains s had argument i == v.
+func CalledWith[T any](s string, i int, v T) bool { return false }
+
+// ResetEvents clears the ghost call trace.
+func ResetEvents() {}
+
+// Recovered reports that a panic was recovered on this path.
+func Recovered() bool { return false }
+
+// Has is map membership.
+func Has[K comparable, V any](m map[K]V, k K) bool { _, ok := m[k]; return ok }
+
+// Implies is logical implication.
+func Implies(a, b bool) bool { return !a || b }
+
+// RetInt / RetErr / RetBool / RetStr: result idx of the last call on this path
+// whose name contains s.
+func RetInt(s string, idx int) int    { return 0 }
+func RetErr(s string, idx int) error  { return nil }
+func RetBool(s string, idx int) bool  { return false }
+func RetStr(s string, idx int) string { return "" }
+
+// NetDelta(&obj.field): net change applied to a lock-guarded integer field
+// inside the locked regions executed on this path (each region contributes
+// value-at-unlock minus value-at-lock).
+func NetDelta(p *int) int { return 0 }
+
+// CalledBefore: the first call matching a happened before the first call matching b.
+func CalledBefore(a, b string) bool { return false }
+
+// Ret is the generic form of RetInt / RetErr.
+func Ret[T any](s string, idx int) T { var z T; return z }
+
+// NthArg / NthRet: argument i / result i of the n-th call (0-based) on this
+// path whose name contains s.
+func NthArg[T any](s string, n int, i int) T { var z T; return z }
+func NthRet[T any](s string, n int, i int) T { var z T; return z }
+
+// DynPtrTo(ret, content): ret holds a non-nil pointer to the dynamic type of content.
+func DynPtrTo(ret any, content any) bool { return false }
